@@ -19,13 +19,15 @@ D3Q = ("slice s:e", "sort b,-a", "sel a>k", "dedup", "proj -a")
 D3BQ = ("slice s:", "sort a", "calc d", "sel false", "proj none")
 
 
+from ..prog import _OPS as _ALL_OPS  # noqa: E402
+
+
 def _leaves_in(node, acc):
     if node[0] == "leaf":
         acc.add(node[1])
     else:
         for x in node[1:3]:
-            if isinstance(x, tuple) and x and x[0] in ("leaf", "calc", "proj", "sel", "dedup", "sort", "slice", "chain",
-                                                         "join", "mat", "xfer"):
+            if isinstance(x, tuple) and x and x[0] in _ALL_OPS:
                 _leaves_in(x, acc)
     return acc
 
@@ -108,6 +110,17 @@ def shapes(tier, seed):
             if "$k0" in repr(fin):
                 p.params["$k0"] = [None, None]
             add(fin, p, {"X": 3}, tag="backtrack")
+    # ... and the same where the transfer already carries a payload (the tree an earlier Processor.process returned; the payload is the
+    # lazy iterable a transfer hook may hand over): the operation moved upstream must not be answered from the old payload
+    P2 = ("proc", T2)
+    PC = ("proc", ("xfer", ("chain", X, ("leaf", "Y")), "it2"))
+    for mid in (P2, ("sel", P2, ("gt", Aa, ("lit", "$k0"))), ("sort", P2, ((Aa, True),)), PC):
+        for fin in (("sel", mid, ("lt", Aa, Bb), back), ("slice", mid, 0, 2, back), ("sort", mid, ((Bb, True), (Aa, False)), back), ("proj", mid, ("a", "b"), back),
+                    ("chain", mid, ("xfer", ("leaf", "Y"), "it2")), ("dedup", ("chain", mid, mid))):
+            p = templates.P()
+            if "$k0" in repr(fin):
+                p.params["$k0"] = [None, None]
+            add(fin, p, {"X": 3, "Y": 2} if "'Y'" in repr(fin) else {"X": 3}, tag="backtrack-processed")
     # selection by membership in an integer range: a box of (start, stop, step) including descending, empty and unaligned ranges
     vals = (-4, -1, 0, 1, 2, 5, 6) if tier == "quick" else tuple(range(-6, 8))
     steps = (1, 2, 3, 4, -1, -2, -3, -4) if tier == "quick" else tuple(s for s in range(-5, 6) if s)
